@@ -40,7 +40,7 @@ Theorem iter_yields valid h g :
   forall p o i, In (p, o, i) (gh_yields gh) ->
     In p (gh_list gh) /\
     ((dget p (gh_cache gh) = Some o /\ ~ In p (gh_marked gh))
-     \/ (dget p (gh_cache gh) = None /\ (gh_heap0 gh <= o)%nat)) /\
+     \/ (gh_heap0 gh <= o)%nat) /\
     match gh_attrs gh with
     | None => True
     | Some l => attrs_valid valid l = true /\ i = Some (spec_keys valid l)
@@ -233,7 +233,7 @@ Corollary reused_refresh valid h g p o i :
   let gh := snd (irun valid h) g in
   In (p, o, i) (gh_yields gh) -> In p (gh_marked gh) -> (gh_heap0 gh <= o)%nat.
 Proof.
-  intros gh Hin Hm. destruct (proj2 (iter_yields valid h g) p o i Hin) as [_ [[[_ Hn]|[_ Hf]] _]].
+  intros gh Hin Hm. destruct (proj2 (iter_yields valid h g) p o i Hin) as [_ [[[_ Hn]|Hf] _]].
   - contradiction.
   - exact Hf.
 Qed.
@@ -242,10 +242,31 @@ Corollary cache_clear_fresh valid h g p o i :
   let gh := snd (irun valid h) g in
   gh_cache gh = [] -> In (p, o, i) (gh_yields gh) -> (gh_heap0 gh <= o)%nat.
 Proof.
-  intros gh Hc Hin. destruct (proj2 (iter_yields valid h g) p o i Hin) as [_ [[[Hs _]|[_ Hf]] _]].
+  intros gh Hc Hin. destruct (proj2 (iter_yields valid h g) p o i Hin) as [_ [[[Hs _]|Hf] _]].
   - fold gh in Hs. rewrite Hc in Hs. discriminate.
   - exact Hf.
 Qed.
+
+(* what happens when the loop meets a cache entry (pid, o): without the reused flag the cached
+   object itself is yielded (or the PID is dropped on NoSuchProcess, or as_dict ends the generator);
+   with the flag the entry is handled exactly like a PID that has no cache entry *)
+Theorem visit_cached t valid attrs x pid o rest :
+  o_reused (l_hp x o) = false ->
+  (exists x' i, gen_loop t valid attrs x ((pid, Some o) :: rest) = LYield x' rest pid o i)
+  \/ (exists x', gen_loop t valid attrs x ((pid, Some o) :: rest) = gen_loop t valid attrs x' rest)
+  \/ (exists x' e, gen_loop t valid attrs x ((pid, Some o) :: rest) = LExc x' e)
+  \/ (exists x', gen_loop t valid attrs x ((pid, Some o) :: rest) = LOom x').
+Proof.
+  intros H. cbn [gen_loop]. rewrite H. cbv beta iota. destruct attrs as [l|]; [|left; eauto].
+  destruct (as_dict t valid (l_ru x) pid (l_hp x o) l) as [[r ob'] ru'].
+  destruct r as [keys|e|]; [left; eauto| |right; right; right; eauto].
+  destruct e; [right; left; eauto|right; right; left; eauto ..].
+Qed.
+
+Theorem visit_flagged t valid attrs x pid o rest :
+  o_reused (l_hp x o) = true ->
+  gen_loop t valid attrs x ((pid, Some o) :: rest) = gen_loop t valid attrs x ((pid, None) :: rest).
+Proof. intros H. cbn [gen_loop]. rewrite H. reflexivity. Qed.
 
 (* is_running(): detects a recycled PID exactly through the start time, and marks it *)
 Theorem is_running_spec valid s o :
